@@ -15,19 +15,19 @@ Init == /\ rep \in [Cwds -> Stale] /\ init = rep /\ history = <<>> /\ tree = "T"
         \* only the stale state of "in" and "parent" varies freely; the others start absent or with one kind of content
         /\ rep["sub"] \in {"absent", "sol"} /\ rep["other"] \in {"absent", "long"}
 
-Run(c, mode) ==
-          /\ Len(history) < MaxRuns
+Run(c, mode, via) ==
+          /\ Len(history) < MaxRuns /\ Applicable(c, mode, via)
           /\ rep' = IF AppendMode /\ rep[c] # "absent" THEN [rep EXCEPT ![c] = "junk"]
                     ELSE IF ReadsStale /\ c = "in" /\ rep[c] = "sol" THEN [rep EXCEPT ![c] = "junk"]
-                    ELSE RunEffect(rep, c, mode)
-          /\ history' = Append(history, <<c, mode>>)
+                    ELSE RunEffect(rep, c, mode, via)
+          /\ history' = Append(history, <<c, mode, via>>)
           /\ UNCHANGED <<init, tree>>
-Next == \E c \in Cwds, mode \in Modes : Run(c, mode)
+Next == \E c \in Cwds, mode \in Modes, via \in Vias : Run(c, mode, via)
 Spec == Init /\ [][Next]_vars
 
 Visited == {history[i][1] : i \in 1 .. Len(history)}
-LastMode(c) == history[CHOOSE i \in 1 .. Len(history) : history[i][1] = c /\ \A j \in (i + 1) .. Len(history) : history[j][1] # c][2]
+LastRun(c) == history[CHOOSE i \in 1 .. Len(history) : history[i][1] = c /\ \A j \in (i + 1) .. Len(history) : history[j][1] # c]
 OnlyReport == tree = "T" /\ \A c \in Cwds \ Visited : rep[c] = init[c]
-Overwrite  == \A c \in Visited : rep[c] = ReportOf(LastMode(c))
+Overwrite  == \A c \in Visited : rep[c] = ReportOf(LastRun(c)[2], LastRun(c)[3])
 DumpBehaviour == (Len(history) = MaxRuns) => PrintT(<<"REPLAY", ToJson([init |-> init, history |-> history])>>)
 =============================================================================
